@@ -6,7 +6,7 @@ conditions and from defining statements (x = min(y, z), x = y % c, ...).  A
 query asks whether  lin(a) - lin(b) >= c  (or an upper bound) follows; it is
 answered with Bellman-Ford over constraints of the forms x - y >= c, x >= c,
 x <= c.  Everything that does not fit these forms is ignored (never assumed)."""
-from .core import expr_str, unwrap_value, const_str
+from .core import expr_str, unwrap_value, const_str, norm_refs
 
 INF = float('inf')
 UNSIGNED = ('usize', 'u8', 'u16', 'u32', 'u64', 'u128')
@@ -79,7 +79,8 @@ def _addc(a, b, sign):
 
 
 def atom(e):
-    return expr_str(strip(e), -30)
+    # `(*&mut x).f` and `x.f` are one quantity (values passed through reference parameters of spliced helpers)
+    return expr_str(strip(norm_refs(e)), -30)
 
 
 class Zone:
